@@ -4,6 +4,37 @@ Correspondence: Lean `renderwbT`/`renderwobT` run on `LazySt` vs the real tag fe
 counting iterator.  Oracle: pulled <= displayed end + step size + orphan, unbounded
 iterators return, unbatched pulls everything exactly once, displayed items are the
 window's items in order.
+
+Two families of cases:
+
+* the bare tag (`<dtml-in seq start= end= size= orphan= overlap=>`, sequence by name, integer
+  items) over the C11 parameter grid: `deco` is None;
+* "decorated" cases: the same tag written the other ways the documentation allows, none of
+  which asks for more of the sequence than the bare tag does, so the same pull bound (and the
+  same model pull count) must hold:
+    - the sequence given by expression (`expr="seq"`, `"seq"`, `expr="mk()"`) or by the name of
+      a callable that produces it;
+    - batch parameters taken from the namespace (int or str values, including 0);
+    - options that are present but switched off at render time (`reverse_expr` evaluating to a
+      false value: 0, False, '', None, [], 0.0, `not 1`, `1==0` ...);
+    - the neutral options `prefix=`, `no_push_item`, `skip_unauthorized`, `mapping`, an item guard
+      (the template class Zope uses), items that are ints / (key, value) pairs / mappings /
+      instances;
+    - the `previous` and `next` forms of the tag;
+    - bodies that evaluate sequence variables which look at the neighbours or at the batch
+      links only (`previous-batches`, `first-x`, `last-x`, `sequence-var-x`, `next-sequence-*`,
+      `sequence-query`, roman numerals ...);
+    - further lazily produced sequences: an object with `__getitem__` + a forcing `__len__`
+      (ZTUtils.Lazy / result-set style), an object with `__getitem__` only, `map` objects;
+    - compiled templates shared between cases (same source rendered again with other data).
+  Requests the property excepts (reverse, true reverse_expr, sort, sort_expr, sequence-length,
+  next-batches, statistics) are generated too, on bounded iterators only, and held to the part of
+  the property that still applies: each element pulled at most once, in order, and displayed as a
+  contiguous run.
+  Expected values never come from the code under test: the bound is the property's arithmetic;
+  for "plain" parameter combinations (start >= 1, either size >= 1 or end >= start, sequence long
+  enough) the window start..end and the batch size are computed from the attribute values
+  themselves; whether reverse_expr asks for reversing is Python's truth value of the expression.
 """
 import json
 
@@ -25,6 +56,7 @@ class Counter:
         self.log = []
         self.i = 0
         self.stops = 0
+        self.ran_away = False
 
     def __iter__(self):
         return self
@@ -34,103 +66,556 @@ class Counter:
             self.stops += 1
             raise StopIteration
         if self.i >= RUNAWAY:
+            self.ran_away = True
             raise Runaway('pulled %d elements' % self.i)
         self.i += 1
         self.log.append(self.i)
         return self.i
 
 
-def observe(n, params, kind='iter'):
-    from DocumentTemplate import HTML
-    attrs = []
-    for k in ('start', 'end', 'size', 'orphan', 'overlap'):
-        v = params.get(k)
-        if v is ABSENT:
-            continue
-        attrs.append(k if v == 'flag' else '%s=%d' % (k, v))
-    c = Counter(n)
+# ----------------------------------------------------------------------------
+# item types, lazy sequence kinds, decorations
+
+class Obj:
+    def __init__(self, v):
+        self.v = v
+
+    def __repr__(self):
+        return 'Obj(%d)' % self.v
+
+
+ITEMS = {
+    'int': lambda i: i,
+    'pair': lambda i: (i * 10, i),       # (key, value): sequence-key / sequence-item
+    'dict': lambda i: {'v': i},          # with the `mapping` option
+    'obj': Obj,
+}
+ATTR = {'int': 'real', 'pair': 'real', 'dict': 'v', 'obj': 'v'}
+
+
+def unitem(x):
+    if isinstance(x, dict):
+        return x['v']
+    if isinstance(x, Obj):
+        return x.v
+    if isinstance(x, tuple):
+        return x[1]
+    return x
+
+
+KINDS = ('iter', 'gen', 'sfi', 'iterable')
+MORE_KINDS = ('lazyseq', 'getitem', 'map')
+
+
+class LazySeq:
+    """ZTUtils.Lazy / result-set style: subscription produces the elements on demand, len() has
+    to produce all of them; no __bool__, no __iter__"""
+
+    def __init__(self, it):
+        self._it = it
+        self._data = []
+        self._done = False
+
+    def __getitem__(self, i):
+        if i < 0:
+            raise IndexError(i)
+        while not self._done and i >= len(self._data):
+            try:
+                self._data.append(next(self._it))
+            except StopIteration:
+                self._done = True
+        return self._data[i]
+
+    def __len__(self):
+        while not self._done:
+            try:
+                self[len(self._data)]
+            except IndexError:
+                pass
+        return len(self._data)
+
+
+def make_seq(c, kind, item):
+    wrap = ITEMS[item]
+    if item == 'int':
+        src = c
+    else:
+        class Items:
+            def __iter__(self):
+                return self
+
+            def __next__(self):
+                return wrap(next(c))
+        src = Items()
     if kind == 'iter':
-        seq = c
-    elif kind == 'gen':
+        return src
+    if kind == 'gen':
         def g():
             while True:
                 try:
-                    yield next(c)
+                    yield next(src)
                 except StopIteration:
                     return
-        seq = g()
-    elif kind == 'iterable':
+        return g()
+    if kind == 'iterable':
         # a lazily produced sequence that is iterable but not itself an iterator
         class ResultSet:
             def __iter__(self):
                 while True:
                     try:
-                        yield next(c)
+                        yield next(src)
                     except StopIteration:
                         return
-        seq = ResultSet()
+        return ResultSet()
+    if kind == 'lazyseq':
+        return LazySeq(src)
+    if kind == 'getitem':
+        # the old sequence protocol: __getitem__ only; every call produces an element
+        class GetItemOnly:
+            def __getitem__(self, i):
+                if i != c.i:
+                    c.log.append(-(i + 1))     # asked again / out of order
+                try:
+                    return next(src)
+                except StopIteration:
+                    raise IndexError(i)
+        return GetItemOnly()
+    if kind == 'map':
+        return map(wrap, c)
+    from DocumentTemplate.DT_Util import SequenceFromIter
+    return SequenceFromIter(src)
+
+
+DECO0 = {
+    'form': 'name',      # name | expr | quoted | exprcall | namecall
+    'via': None,         # None | 'int' | 'str': batch parameters given as variable names
+    'rev': None,         # [expression text, value of `flip`]  -> reverse_expr="text"
+    'reverse': False,    # plain reverse attribute
+    'sort': None,        # ['sort', key] | ['sort_expr', value of `skey`]
+    'flags': [],         # 'prefix=p', 'no_push_item', 'skip_unauthorized', 'mapping'
+    'item': 'int',
+    'mode': 'loop',      # loop | previous | next
+    'vars': [],          # sequence variables evaluated in the body
+    'shared': False,     # compiled template taken from / left in the per-run cache
+    'guard': False,      # template class with an item/attribute guard (pass-through)
+}
+
+REV_FALSE = [['flip', 0], ['flip', False], ['flip', ''], ['flip', None], ['flip', []], ['flip', 0.0],
+             ['not flip', 1], ['not flip', 'x'], ['flip and 1', 0], ['flip == 1', 2], ['1==0', None],
+             ['0', None], ['flip or 0', ''], ['flip != flip', 3]]
+REV_TRUE = [['flip', 1], ['flip', True], ['flip', 'no'], ['flip', [0]], ['not flip', 0], ['1==1', None],
+            ['flip or 1', 0], ['flip == 1', 1]]
+
+# evaluating these needs the neighbours of the current element or the batch links only
+NEUTRAL_VARS = ['sequence-index', 'sequence-number', 'sequence-key', 'sequence-roman', 'sequence-Roman',
+                'sequence-letter', 'sequence-even', 'sequence-odd', 'sequence-start', 'sequence-end',
+                'previous-sequence', 'next-sequence', 'previous-sequence-start-index',
+                'previous-sequence-end-index', 'previous-sequence-size', 'previous-sequence-start-number',
+                'next-sequence-start-index', 'next-sequence-end-number', 'next-sequence-size',
+                'sequence-step-size', 'sequence-step-start', 'sequence-step-end', 'sequence-step-orphan',
+                'sequence-step-overlap', 'sequence-query', 'previous-batches', 'previous-batches',
+                'previous-batches', 'first-@', 'last-@', 'sequence-var-@']
+# excepted by the property: these need the whole sequence
+WHOLE_VARS = ['sequence-length', 'next-batches', 'total-@', 'count-@', 'min-@', 'max-@', 'mean-@',
+              'median-@', 'variance-@', 'standard-deviation-@']
+_WHOLE_PREFIXES = ('total-', 'count-', 'min-', 'max-', 'mean-', 'median-', 'variance-',
+                   'variance-n-', 'standard-deviation-', 'standard-deviation-n-')
+
+
+def full(deco):
+    d = dict(DECO0)
+    d.update(deco or {})
+    return d
+
+
+def rev_truth(rev):
+    """does reverse_expr ask for reversing?  Python's own truth value of the expression"""
+    return bool(eval(rev[0], {'__builtins__': {}}, {'flip': rev[1]}))
+
+
+def needs_whole(deco):
+    d = full(deco)
+    if d['reverse'] or d['sort']:
+        return True
+    if d['rev'] and rev_truth(d['rev']):
+        return True
+    for v in d['vars']:
+        if v in ('sequence-length', 'next-batches') or v.startswith(_WHOLE_PREFIXES):
+            return True
+    return False
+
+
+def descending(deco):
+    d = full(deco)
+    return bool(d['reverse'] or (d['rev'] and rev_truth(d['rev'])))
+
+
+def plain_window(n, params):
+    """(start, end, size) of the window when it can be read off the attribute values themselves:
+    start >= 1 (absent: 1); either size >= 1 without end, or start given and end >= start without a
+    (positive) size; the sequence reaches beyond window + look-ahead batch.  None otherwise."""
+    for k in ('start', 'end', 'size', 'orphan', 'overlap'):
+        v = params.get(k)
+        if v == 'flag' or (v is not ABSENT and v < 0):
+            return None
+    st, en, sz = params.get('start'), params.get('end'), params.get('size')
+    if st is ABSENT and en is ABSENT and sz is ABSENT:
+        return None
+    if st is not ABSENT and st < 1:
+        return None
+    s = 1 if st is ABSENT else st
+    if en is ABSENT and sz is not ABSENT and sz >= 1:
+        e = s + sz - 1
+    elif st is not ABSENT and en is not ABSENT and en >= s and sz in (ABSENT, 0):
+        e, sz = en, en + 1 - s
     else:
-        from DocumentTemplate.DT_Util import SequenceFromIter
-        seq = SequenceFromIter(c)
+        return None
+    if n is not None and n <= e + sz + eff(params, 'orphan') + 1:
+        return None
+    return s, e, sz
+
+
+_SHARED = {}
+_GUARDED = []
+
+
+def template(src, guard, shared):
+    from DocumentTemplate import HTML
+    if not _GUARDED:
+        marker = object()
+
+        class Guarded(HTML):
+            def guarded_getattr(self, inst, name, default=marker):
+                if default is marker:
+                    return getattr(inst, name)
+                return getattr(inst, name, default)
+
+            def guarded_getitem(self, ob, index):
+                return ob[index]
+        _GUARDED.append(Guarded)
+    cls = _GUARDED[0] if guard else HTML
+    if not shared:
+        return cls(src)
+    t = _SHARED.get((src, guard))
+    if t is None:
+        t = _SHARED[(src, guard)] = cls(src)
+    return t
+
+
+def source(params, deco, kw=None):
+    """the template text of a case (and the namespace entries its attributes refer to)"""
+    d = full(deco)
+    kw = {} if kw is None else kw
+    battrs = []
+    for k in ('start', 'end', 'size', 'orphan', 'overlap'):
+        v = params.get(k)
+        if v is ABSENT:
+            continue
+        if v == 'flag':
+            battrs.append(k)
+        elif d['via']:
+            battrs.append('%s=v_%s' % (k, k))
+            kw['v_' + k] = v if d['via'] == 'int' else str(v)
+        else:
+            battrs.append('%s=%d' % (k, v))
+    attrs = list(battrs)
+    if d['mode'] != 'loop':
+        attrs.append(d['mode'])
+    if d['rev']:
+        attrs.append('reverse_expr="%s"' % d['rev'][0])
+        kw['flip'] = d['rev'][1]
+    if d['reverse']:
+        attrs.append('reverse')
+    if d['sort']:
+        if d['sort'][0] == 'sort':
+            attrs.append('sort=%s' % d['sort'][1])
+        else:
+            attrs.append('sort_expr="skey"')
+            kw['skey'] = d['sort'][1]
+    attrs += list(d['flags'])
+    ref = {'name': 'seq', 'expr': 'expr="seq"', 'quoted': '"seq"', 'exprcall': 'expr="mk()"',
+           'namecall': 'mk'}[d['form']]
+    src = '<dtml-in %s %s><dtml-call "rec(_)"><dtml-else>EMPTY</dtml-in>' % (ref, ' '.join(attrs))
+    return src, bool(battrs)
+
+
+def observe(n, params, kind='iter', deco=None):
+    d = full(deco)
+    kw = {}
+    src, batched = source(params, deco, kw)
+    c = Counter(n)
+    seq = make_seq(c, kind, d['item'])
+    if d['form'] in ('exprcall', 'namecall'):
+        kw['mk'] = lambda: seq
+    else:
+        kw['seq'] = seq
+    names = [v.replace('@', ATTR[d['item']]) for v in d['vars']]
     rows = []
 
     def rec(md):
-        rows.append((md.getitem('sequence-item', 0), md.getitem('sequence-step-size', 0)
-                     if attrs else None, len(c.log)))
+        try:
+            it = unitem(md.getitem('sequence-item', 0))
+        except KeyError:
+            it = None          # the previous / next forms have no current element
+        sz = md.getitem('sequence-step-size', 0) if batched else None
+        for v in names:
+            try:
+                x = md.getitem(v, 0)
+                if v in ('previous-batches', 'next-batches'):
+                    for b in x:
+                        b['batch-start-index'], b['batch-end-index'], b['batch-size']
+            except Runaway:
+                raise
+            except Exception:  # noqa  (a variable that is not defined for this kind of item)
+                pass
+        rows.append((it, sz, len(c.log)))
         return ''
-    src = '<dtml-in seq %s><dtml-call "rec(_)"><dtml-else>EMPTY</dtml-in>' % ' '.join(attrs)
     try:
-        out = HTML(src)(seq=seq, rec=rec)
+        out = template(src, d['guard'], d['shared'])(rec=rec, **kw)
     except Runaway as e:
         return {'src': src, 'runaway': str(e), 'pulled': len(c.log)}
     except Exception as e:  # noqa
+        if c.ran_away:
+            return {'src': src, 'runaway': 'pulled %d elements, then %s' % (c.i, type(e).__name__),
+                    'pulled': len(c.log)}
         return {'src': src, 'exc': type(e).__name__ + ': ' + str(e)[:80], 'pulled': len(c.log)}
+    if c.ran_away:
+        return {'src': src, 'runaway': 'pulled %d elements' % c.i, 'pulled': len(c.log)}
     return {'src': src, 'empty': out == 'EMPTY', 'items': [r[0] for r in rows],
             'sz': rows[0][1] if rows else None, 'pulled': len(c.log),
             'log_ok': c.log == list(range(1, len(c.log) + 1)),
             'pulled_during': [r[2] for r in rows]}
 
 
-def oracle(n, params, obs, batched):
+def oracle(n, params, obs, batched, deco=None):
     """returns (failures, known_finding_hit)"""
+    d = full(deco)
     bad = []
     known = False
+    whole = needs_whole(d)
     if 'runaway' in obs:
         return ['render of %s iterator did not stop pulling: %s' % (
             'an unbounded' if n is None else 'a bounded', obs['runaway'])], False
     if 'exc' in obs:
         return ['render raised %s' % obs['exc']], False
     if not obs['log_ok']:
-        bad.append('pull order not sequential')
+        bad.append('pull order not sequential / an element pulled twice')
     if n == 0:
         if not obs['empty']:
             bad.append('empty iterator did not render else')
         return bad, False
     items = obs['items']
-    if not items or items != list(range(items[0], items[-1] + 1)):
+    orphan, overlap = eff(params, 'orphan'), eff(params, 'overlap')
+    if d['mode'] != 'loop':
+        # previous / next form: the body is rendered once (or the else part), nothing is displayed;
+        # generated for plain windows only
+        s, e, sz = plain_window(n, params)
+        want = s > 1 if d['mode'] == 'previous' else True   # the sequence reaches beyond the window
+        if len(items) != (1 if want else 0) or obs['empty'] != (not want):
+            bad.append('%s form: body rendered %d times, else=%s; window %d..%d' % (
+                d['mode'], len(items), obs['empty'], s, e))
+        if obs['pulled'] > e + sz + orphan:
+            if d['mode'] == 'previous' and e + sz + orphan < s - 1 + overlap >= obs['pulled']:
+                known = True   # C12-overlap: the same previous-batch probe, no model run here: reach checked
+            else:
+                bad.append('%s form pulled %d elements > end(%d)+size(%d)+orphan(%d)' % (
+                    d['mode'], obs['pulled'], e, sz, orphan))
+        return bad, known
+    run = list(range(items[0], items[-1] + 1)) if items and items[0] <= items[-1] else None
+    if whole and descending(d):
+        run = list(range(items[0], items[-1] - 1, -1)) if items and items[0] >= items[-1] else None
+    if not items or items != run:
         bad.append('displayed items are not a contiguous run: %s' % items[:10])
         return bad, False
     if not batched:
-        if n is not None and (obs['pulled'] != n or items != list(range(1, n + 1))):
+        want = list(range(1, n + 1)) if n is not None else None
+        if want is not None and whole and descending(d):
+            want.reverse()
+        if n is not None and (obs['pulled'] != n or items != want):
             bad.append('unbatched render pulled %d of %d, showed %s' % (obs['pulled'], n, items[:10]))
         return bad, False
+    if whole:
+        # excepted request: every element may be needed; at most once each, in order (log_ok)
+        return bad, False
     s, e = items[0], items[-1]
-    orphan, overlap = eff(params, 'orphan'), eff(params, 'overlap')
-    bound = e + obs['sz'] + orphan
+    sz = obs['sz']
+    pw = plain_window(n, params)
+    if pw is not None:
+        if (s, e) != pw[:2]:
+            bad.append('displayed %d..%d, the attributes say %d..%d' % (s, e, pw[0], pw[1]))
+            return bad, False
+        sz = pw[2]
+    bound = e + sz + orphan
     if obs['pulled'] > bound:
         if s - 1 + overlap > bound:
             known = True   # C12-overlap: previous-batch probe looks `overlap` past the start
         else:
-            bad.append('pulled %d elements > end(%d)+size(%d)+orphan(%d)' % (obs['pulled'], e, obs['sz'], orphan))
-    # laziness while rendering: when element k is rendered no more than the bound was pulled
+            bad.append('pulled %d elements > end(%d)+size(%d)+orphan(%d)' % (obs['pulled'], e, sz, orphan))
     return bad, known
+
+
+# ----------------------------------------------------------------------------
+# generation of decorated cases
+
+def draw_deco(r, batched, plain, bounded):
+    """a decoration with 1..4 non-default features"""
+    avail = ['form', 'form', 'revfalse', 'revfalse', 'flags', 'item', 'vars', 'vars', 'guard']
+    if batched:
+        avail += ['via', 'via']
+    if batched and plain:
+        avail += ['mode', 'mode']
+    if bounded:
+        avail += ['whole']
+    feats = set(r.sample(avail, r.choice([1, 1, 2, 2, 3, 4])))
+    d = {}
+    if 'item' in feats:
+        d['item'] = r.choice(['pair', 'dict', 'obj'])
+    item = d.get('item', 'int')
+    flags = []
+    if item == 'dict' and r.random() < 0.8:
+        flags.append('mapping')
+    if 'flags' in feats:
+        flags += r.sample(['prefix=p', 'no_push_item', 'skip_unauthorized'], r.randint(1, 2))
+    if flags:
+        d['flags'] = flags
+    if 'form' in feats:
+        d['form'] = r.choice(['expr', 'quoted', 'exprcall', 'namecall'])
+    if 'via' in feats:
+        d['via'] = r.choice(['int', 'str'])
+    if 'guard' in feats:
+        d['guard'] = True
+    if 'mode' in feats:
+        d['mode'] = r.choice(['previous', 'next'])
+    vs = []
+    if 'vars' in feats and 'mode' not in feats:
+        vs = r.sample(NEUTRAL_VARS, r.randint(1, 4))
+    if 'whole' in feats and 'mode' not in feats:
+        w = r.choice(['rev', 'reverse', 'sort', 'sort_expr', 'var', 'var'])
+        if item == 'dict' and 'mapping' not in flags and w in ('sort', 'sort_expr'):
+            w = 'reverse'      # without `mapping` a dict has no sort attribute: order among equal keys is C13's
+        if w == 'rev':
+            d['rev'] = r.choice(REV_TRUE)
+        elif w == 'reverse':
+            d['reverse'] = True
+            if 'revfalse' in feats:
+                d['rev'] = r.choice(REV_FALSE)     # reverse_expr false, but a plain reverse as well
+        elif w == 'sort':
+            d['sort'] = ['sort', 'sequence-item' if item in ('int', 'pair') else 'v']
+        elif w == 'sort_expr':
+            d['sort'] = ['sort_expr', '' if item in ('int', 'pair') else 'v']
+        else:
+            vs = vs + [r.choice(WHOLE_VARS)]
+    if 'revfalse' in feats and 'rev' not in d:
+        d['rev'] = r.choice(REV_FALSE)
+    if vs:
+        d['vars'] = vs
+    if r.random() < 0.5:
+        d['shared'] = True
+    return d
+
+
+def tame(d, n, p):
+    """`next-batches` (excepted by the property anyway) does not terminate in the library when the
+    batches do not advance (overlap >= batch size, or a window the attributes do not pin down):
+    ask for the length instead"""
+    if 'next-batches' in d.get('vars', ()):
+        pw = plain_window(n, p)
+        if pw is None or eff(p, 'overlap') >= pw[2]:
+            d['vars'] = ['sequence-length' if v == 'next-batches' else v for v in d['vars']]
+    return d
+
+
+def deco_cases(r, tier):
+    quick = tier == 'quick'
+    out = []
+    # (a) a slice of the C11 grid
+    keep = 0.12 if quick else 0.03
+    for L, p in param_space('quick' if quick else 'thorough', r):
+        if r.random() > keep:
+            continue
+        n = L
+        c = r.random()
+        if c < 0.3:
+            n = None
+        elif c < 0.4:
+            n = 40
+        d = tame(draw_deco(r, True, plain_window(n, p) is not None, n is not None), n, p)
+        if needs_whole(d) and n is None:
+            continue
+        out.append((n, p, r.choice(KINDS + MORE_KINDS), True, d))
+    # (b) plain windows (what a batched listing page uses): window and size known from the attributes
+    for _ in range(5000 if quick else 40000):
+        p = {k: ABSENT for k in ('start', 'end', 'size', 'orphan', 'overlap')}
+        if r.random() < 0.75:
+            p['start'] = r.randint(1, 12)
+        if p['start'] is not ABSENT and r.random() < 0.3:
+            p['end'] = p['start'] + r.randint(0, 5)
+            if r.random() < 0.3:
+                p['size'] = 0
+        else:
+            p['size'] = r.randint(1, 6)
+        if r.random() < 0.6:
+            p['orphan'] = r.randint(0, 3)
+        if r.random() < 0.6:
+            p['overlap'] = r.randint(0, 2)
+        n = r.choice([None, None, 40, 333])
+        d = tame(draw_deco(r, True, True, n is not None), n, p)
+        if needs_whole(d) and n is None:
+            continue
+        out.append((n, p, r.choice(KINDS + MORE_KINDS), True, d))
+    # (c) unbatched
+    for _ in range(600 if quick else 5000):
+        n = r.choice([0, 1, 2, 3, 5, 8, 14, 40])
+        d = draw_deco(r, False, False, True)
+        out.append((n, {}, r.choice(KINDS + MORE_KINDS), False, d))
+    return out
+
+
+def deco_key(d):
+    d = full(d)
+    ks = []
+    if d['form'] != 'name':
+        ks.append('form=' + d['form'])
+    if d['via']:
+        ks.append('params_via_' + d['via'])
+    if d['rev']:
+        ks.append('reverse_expr_true' if rev_truth(d['rev']) else 'reverse_expr_false')
+    if d['reverse']:
+        ks.append('reverse')
+    if d['sort']:
+        ks.append(d['sort'][0])
+    for f in d['flags']:
+        ks.append(f)
+    if d['item'] != 'int':
+        ks.append('item=' + d['item'])
+    if d['mode'] != 'loop':
+        ks.append('form_' + d['mode'])
+    if d['vars']:
+        ks.append('body_vars')
+    if 'previous-batches' in d['vars']:
+        ks.append('previous-batches')
+    if d['guard']:
+        ks.append('guarded')
+    if d['shared']:
+        ks.append('shared_template')
+    return ks
 
 
 def run(res, tier, have_driver):
     r = common.rng('C12')
     res.rule = ('C11 parameter grid (quick: seeded slice) applied to counting iterators / generators / '
-                'SequenceFromIter, bounded (n in 0..14, 40) and unbounded; non-trivial = batched case on an '
-                'iterator longer than the displayed window (something is left unpulled or looked ahead)')
+                'SequenceFromIter / non-iterator iterables, bounded (n in 0..14, 40) and unbounded; plus '
+                'decorated cases (grid slice, plain listing-page windows on n in {unbounded, 40, 333}, unbatched): '
+                'sequence by expr= / quoted expr / producer call / callable name; batch parameters from the '
+                'namespace as int or str (incl. 0); reverse_expr evaluating false (14 expression/value pairs) '
+                'where the pull bound still applies, and true / reverse / sort / sort_expr / sequence-length / '
+                'next-batches / statistics on bounded iterators (excepted: only order + at-most-once); prefix=, '
+                'no_push_item, skip_unauthorized, mapping, item guard; items int / pair / mapping / instance; '
+                'previous and next forms; bodies evaluating previous-batches, first-/last-/sequence-var-x, link '
+                'and step variables, sequence-query; lazy kinds lazyseq (__getitem__ + forcing __len__), '
+                '__getitem__-only, map; compiled templates shared between cases.  Window and size of plain '
+                'cases are computed from the attributes.  non-trivial = batched case on an iterator longer '
+                'than the displayed window (something is left unpulled or looked ahead)')
     cases = []
     for L, p in param_space('quick' if tier == 'quick' else 'thorough', r):
         if tier == 'thorough' and r.random() > 0.25:
@@ -140,36 +625,56 @@ def run(res, tier, have_driver):
             n = None
         elif r.random() < 0.1:
             n = 40
-        cases.append((n, p, r.choice(['iter', 'gen', 'sfi', 'iterable']), True))
+        cases.append((n, p, r.choice(['iter', 'gen', 'sfi', 'iterable']), True, None))
     for n in list(range(0, 15)) + [40, 333]:
         for kind in ('iter', 'gen', 'sfi', 'iterable'):
-            cases.append((n, {}, kind, False))
-    reqs, obss = [], []
-    for (n, p, kind, batched) in cases:
-        obs = observe(n, p, kind)
+            cases.append((n, {}, kind, False, None))
+    n_bare = len(cases)
+    cases += deco_cases(common.rng('C12-deco'), tier)
+    reqs, req_of, obss = [], [], []
+    for (n, p, kind, batched, deco) in cases:
+        obs = observe(n, p, kind, deco)
         obss.append(obs)
         res.evaluations += 1
         res.count('unbounded' if n is None else 'bounded')
         res.count(kind)
         res.count('batched' if batched else 'unbatched')
-        bad, known = oracle(n, p, obs, batched)
+        whole = False
+        if deco is not None:
+            res.count('decorated')
+            for k in deco_key(deco):
+                res.count('deco:' + k)
+            whole = needs_whole(deco)
+            if whole:
+                res.count('deco:excepted_request')
+            if batched and plain_window(n, p) is not None:
+                res.count('deco:plain_window')
+        bad, known = oracle(n, p, obs, batched, deco)
         if known:
             res.known_hits.setdefault('C12-overlap', {'n': n, 'params': p, 'src': obs['src'],
                                                       'pulled': obs['pulled']})
             res.count('known_finding_region')
         for f in bad:
             res.oracle_fail.append({'case': {'n': n, 'params': p, 'kind': kind, 'batched': batched,
-                                             'src': obs.get('src')}, 'what': f})
-        if batched and 'items' in obs and obs['items'] and (n is None or obs['items'][-1] < n):
-            res.nt((n, tuple(sorted((k, str(v)) for k, v in p.items()))))
-        reqs.append({'op': 'lazy', 'start': eff(p, 'start'), 'end': eff(p, 'end'), 'size': eff(p, 'size'),
-                     'orphan': eff(p, 'orphan'), 'overlap': eff(p, 'overlap'),
-                     'n': -1 if n is None else n, 'batched': batched})
-    for i in (0, len(cases) // 3, len(cases) // 2, len(cases) - 1):
-        res.sample({'n': cases[i][0], 'params': cases[i][1], 'kind': cases[i][2], 'observation': obss[i]})
+                                             'deco': deco, 'src': obs.get('src')}, 'what': f})
+        mode = full(deco)['mode']
+        if batched and not whole and (mode != 'loop' or (
+                'items' in obs and obs['items'] and (n is None or obs['items'][-1] < n))):
+            res.nt((n, tuple(sorted((k, str(v)) for k, v in p.items())),
+                    json.dumps(deco, sort_keys=True) if deco else ''))
+        # the model knows the bare loop; decorations that leave the pulls alone are compared with it too
+        if not whole and mode == 'loop':
+            req_of.append(len(obss) - 1)
+            reqs.append({'op': 'lazy', 'start': eff(p, 'start'), 'end': eff(p, 'end'), 'size': eff(p, 'size'),
+                         'orphan': eff(p, 'orphan'), 'overlap': eff(p, 'overlap'),
+                         'n': -1 if n is None else n, 'batched': batched})
+    for i in (0, n_bare // 3, n_bare // 2, n_bare - 1, n_bare + 1, len(cases) - 700):
+        res.sample({'n': cases[i][0], 'params': cases[i][1], 'kind': cases[i][2], 'deco': cases[i][4],
+                    'observation': obss[i]})
     if have_driver:
         resp = common.run_driver(reqs)
-        for (n, p, kind, batched), obs, rp in zip(cases, obss, resp):
+        for i, rp in zip(req_of, resp):
+            (n, p, kind, batched, deco), obs = cases[i], obss[i]
             if 'ok' not in rp:
                 res.harness_errors.append('driver: %r' % (rp,))
                 break
@@ -187,12 +692,15 @@ def run(res, tier, have_driver):
             elif batched and obs['items'] and (obs['items'][0], obs['items'][-1]) != (m['start'], m['end']):
                 d = 'window: impl %d..%d model %d..%d' % (obs['items'][0], obs['items'][-1], m['start'], m['end'])
             if d:
-                res.corr_mismatch.append({'case': {'n': n, 'params': p, 'kind': kind, 'batched': batched},
+                res.corr_mismatch.append({'case': {'n': n, 'params': p, 'kind': kind, 'batched': batched,
+                                                   'deco': deco},
                                           'impl': obs, 'model': m, 'diff': d})
     res.partial.append('batch_pull_bound_partial: proved under start-1+overlap <= end+size+orphan; the '
                        'excluded region is known finding C12-overlap (witness theorem finding_C12_overlap)')
-    res.assumptions += ['iterator protocol / SequenceFromIter modelled by LazySt; sort/reverse/length/'
-                        'next-batches/statistics are excepted by the property and not generated']
+    res.assumptions += ['iterator protocol / SequenceFromIter modelled by LazySt; the model is the bare loop: '
+                        'decorated cases whose options must not change the pulls are compared with the same '
+                        'model run; previous / next forms and the excepted requests (sort / reverse / length / '
+                        'next-batches / statistics) are oracle-only']
 
 
 def search_more(res, tier):
@@ -202,10 +710,13 @@ def search_more(res, tier):
         if r.random() > 0.1:
             continue
         n = None if r.random() < 0.4 else L
-        obs = observe(n, p, 'iter')
-        bad, known = oracle(n, p, obs, True)
+        deco = None
+        if r.random() < 0.5:
+            deco = tame(draw_deco(r, True, plain_window(n, p) is not None, False), n, p)
+        obs = observe(n, p, 'iter', deco)
+        bad, known = oracle(n, p, obs, True, deco)
         for f in bad:
-            found.append({'case': {'n': n, 'params': p, 'src': obs.get('src')}, 'what': f})
+            found.append({'case': {'n': n, 'params': p, 'deco': deco, 'src': obs.get('src')}, 'what': f})
         if len(found) > 5:
             break
     return found
@@ -215,8 +726,8 @@ def replay(path):
     with open(path) as f:
         d = json.load(f)
     c = d['first']['case']
-    obs = observe(c['n'], c['params'], c.get('kind', 'iter'))
-    bad, known = oracle(c['n'], c['params'], obs, c.get('batched', True))
+    obs = observe(c['n'], c['params'], c.get('kind', 'iter'), c.get('deco'))
+    bad, known = oracle(c['n'], c['params'], obs, c.get('batched', True), c.get('deco'))
     print(obs)
     print(bad, 'known' if known else '')
     return 1 if bad else 0
